@@ -117,6 +117,11 @@ static int vf_mutex_trylock(pthread_mutex_t *m) {
 }
 static int vf_mutex_unlock(pthread_mutex_t *m) {
     (void)m;
+    /* an unlock with no matching lock: had the caller entered holding the lock (the documented lock(); walk; unlock()
+     * pattern) it would now return one level lower than it entered - the code never reads the depth, so this is the same
+     * path.  The only legitimate unmatched unlock (forced unlock after MAX_MUTEX_LOCK_WAIT failed trylocks) cannot occur
+     * here because the model's trylock always succeeds. */
+    VF_ASSERT(vf_lock_depth > 0, "C14.lock.overrelease: no operation releases the container lock more often than it acquired it");
     if (vf_lock_depth == 0) { vf_unlock_eperm++; return EPERM; }
     vf_lock_depth--;
     vf_lock_releases++;
